@@ -218,13 +218,13 @@ Theorem accepted_blocks_graph i e u bl st' : J i -> elinv (i_st i) -> V (i_st i)
   process cap eb (aput (a_id e) e (i_es i)) (i_st i) e = (Ok u, bl, st') ->
   let es1 := aput (a_id e) e (i_es i) in
   let E' := (a_id e, vev (l_vals (i_st i)) e) :: evs (l_idx (i_st i)) in
-  forall b, In b bl -> b_atropos b <> 0 ->
+  forall b, In b bl ->
     (* the Atropos is an accepted event (possibly the one just processed) occupying a root slot of the block's frame *)
     (exists e0, (e0 = e \/ In e0 (acc_events i)) /\ a_id e0 = b_atropos b /\ spf_in es1 e0 < b_frame b <= a_frame e0) /\
     (* the cheaters are the validators with a visible seq-fork below the Atropos, in canonical order *)
     b_cheaters b = visible_forkers (l_vals (i_st i)) E' (b_atropos b).
 Proof.
-  intros HJ HI HV G Hwf E es1 E' b Hb Hnz.
+  intros HJ HI HV G Hwf E es1 E' b Hb.
   destruct (guard_none i e G) as (Gn & Gep & Gp & Gc).
   destruct (process_ok_shape cap _ _ _ _ _ _ _ E) as (s' & spf & c1 & Hadd & Hspf & Hle & Hpos & r2 & HE). cbn zeta in HE.
   destruct (add_preserves _ _ _ (j_vinv i HJ) Hwf) as (s'' & Hadd' & I' & Hevs). rewrite Hadd in Hadd'. inversion Hadd'; subst s''. clear Hadd'.
@@ -240,14 +240,14 @@ Proof.
     - rewrite add_roots_iff by exact Hle. cbn [l_roots set_fcc set_idx]. reflexivity. }
   assert (V2' : V st2).
   { destruct HV as [H1 H2]. unfold V, goodv, names_root in *. rewrite El2.
-    split; intros k vt Hin Y Z; [destruct (H1 _ _ Hin Y Z) as [r0 [A B]] | destruct (H2 _ _ Hin Y Z) as [r0 [A B]]];
+    split; intros k vt Hin Y; [destruct (H1 _ _ Hin Y) as [r0 [A B]] | destruct (H2 _ _ Hin Y) as [r0 [A B]]];
       exists r0; (split; [apply R2; left; exact A | exact B]). }
   destruct (handle_election_rooted cap eb es1 e _ _ _ _ _ _ V2' I2 HE) as [AR _].
   pose proof (handle_election_blocks cap eb es1 e _ _ _ _ _ _ I2 HE b Hb) as (st1 & f & a & sl & stx & (SV1 & SV2 & SV3 & SV4) & Hf & OF).
   destruct (on_frame_decided_block _ _ _ _ _ _ _ _ OF) as (Bc & Ba & Bf).
   (* the root *)
   assert (Hroot : exists e0, (e0 = e \/ In e0 (acc_events i)) /\ a_id e0 = b_atropos b /\ spf_in es1 e0 < b_frame b <= a_frame e0).
-  { destruct (AR b Hb Hnz) as [r [Hr [Hrf Hri]]]. apply R2 in Hr as [Hr|[g [Hg ->]]].
+  { destruct (AR b Hb) as [r [Hr [Hrf Hri]]]. apply R2 in Hr as [Hr|[g [Hg ->]]].
     - apply (j_roots i HJ) in Hr as [e0 [Hin [Hg0 [[S1 S2] [S3 S4]]]]].
       exists e0. split; [right; apply (acc_events_in i e0 HJ); auto|]. split; [congruence|].
       assert (Hs : spf_in es1 e0 = spf_in (i_es i) e0).
@@ -314,3 +314,52 @@ Proof.
 Qed.
 
 End RunJ.
+
+(* ---------- the exact form of "the Atropos is a stored root" (audit-F issue 1) ---------- *)
+Section RootedExact.
+Variable cap : nat.
+Variable eb : N -> N -> N -> list N -> list N -> option vals.
+
+Theorem process_atropos_rooted_exact es st e r bl st' :
+  V st -> elinv st -> process cap eb es st e = (r, bl, st') ->
+  exists R,
+    (forall r0, In r0 (l_roots st) -> In r0 R) /\
+    (forall r0, In r0 R -> In r0 (l_roots st) \/
+        (r_val r0 = a_creator e /\ r_id r0 = a_id e /\ r_frame r0 <= a_frame e /\
+         exists spf, spf_of es e = Ok spf /\ spf < r_frame r0)) /\
+    all_rooted R bl /\
+    (sealed_last bl = false -> V st' /\ (r = Ok tt -> l_roots st' = R)).
+Proof.
+  intros HV I E. unfold process in E.
+  destruct (add (l_idx st) (vev (l_vals st) e)) as [s'|].
+  2:{ inversion E; subst r bl st'. exists (l_roots st). split; [auto|]. split; [auto|]. split; [intros b []|]. intros _. split; [exact HV|]. intros H; discriminate H. }
+  destruct (calc_frame_keys cap es (set_idx st s') e true) as [c1 [S1 _]].
+  destruct (calc_frame cap es (set_idx st s') e true) as [[[spf fr]|x] st1] eqn:CF; cbn [snd] in S1; subst st1.
+  2:{ inversion E; subst r bl st'. exists (l_roots st). split; [auto|]. split; [auto|]. split; [intros b []|]. intros _. split; [exact HV|]. intros H; discriminate H. }
+  destruct (calc_frame_struct _ _ _ _ _ _ _ _ CF) as (F1 & F2 & F3).
+  destruct (a_frame e =? fr) eqn:EQ; cbn [negb] in E.
+  2:{ inversion E; subst r bl st'. exists (l_roots st). split; [auto|]. split; [auto|]. split; [intros b []|]. intros _. split; [exact HV|]. intros H; discriminate H. }
+  apply N.eqb_eq in EQ. subst fr.
+  set (st2 := if spf =? a_frame e then set_fcc (set_idx st s') c1 else add_roots (set_fcc (set_idx st s') c1) spf e) in *.
+  assert (F : l_ldf st2 = l_ldf st /\ l_el st2 = l_el st) by (unfold st2; destruct (spf =? a_frame e); cbn; auto).
+  destruct F as (L2 & El2).
+  assert (I2 : elinv st2) by (unfold elinv in *; congruence).
+  assert (R2 : forall r0, In r0 (l_roots st2) <-> In r0 (l_roots st) \/ exists g, spf < g <= a_frame e /\ r0 = (g, a_creator e, a_id e)).
+  { intros r0. unfold st2. destruct (spf =? a_frame e) eqn:Q.
+    - apply N.eqb_eq in Q. cbn [l_roots set_fcc set_idx]. split; [auto | intros [H|[g [H _]]]; [auto | lia]].
+    - rewrite add_roots_iff by exact F2. cbn [l_roots set_fcc set_idx]. reflexivity. }
+  assert (V2 : V st2).
+  { destruct HV as [H1 H2]. unfold V, goodv, names_root in *. rewrite El2.
+    split; intros k vt Hin Y; [destruct (H1 _ _ Hin Y) as [r0 [A B]] | destruct (H2 _ _ Hin Y) as [r0 [A B]]];
+      exists r0; (split; [apply R2; left; exact A | exact B]). }
+  destruct (handle_election cap eb (S (S (N.to_nat (a_frame e - spf)))) es st2 e (spf + 1) []) as [[r2 bl2] st3] eqn:HE.
+  destruct (handle_election_rooted cap eb es e _ _ _ _ _ _ V2 I2 HE) as [AR VV].
+  pose proof (handle_election_post cap eb es e _ _ _ _ _ _ I2 HE) as [_ [_ P]].
+  assert (bl = bl2 /\ st' = st3) as [-> ->] by (destruct r2; inversion E; auto).
+  exists (l_roots st2). split; [intros r0 H; apply R2; left; exact H|]. split; [|split; [exact AR|]].
+  - intros r0 H. apply R2 in H as [H|[g [Hg ->]]]; auto. right. unfold r_val, r_id, r_frame. cbn [fst snd].
+    repeat split; try lia. exists spf. split; [exact F3 | lia].
+  - intros NS. split; [apply VV; exact NS|]. intros _. rewrite NS in P. destruct P as (_&_&_&P4&_). exact P4.
+Qed.
+
+End RootedExact.
